@@ -20,6 +20,8 @@ Does NOT require (never flagged):
   * equal `Constant.kind`, `type_comment`, `Module.type_ignores` (the compiler never reads them;
     CPython fills type comments only on request);
   * a field that is absent on one side and None / [] on the other (ast.AST treats them alike);
+  * how the literal text of an f-string is cut into Constant pieces (adjacent pieces are concatenated
+    by the compiler, empty pieces contribute nothing);
   * any behaviour for texts CPython rejects, or for xonsh-only syntax;
   * a particular result object for an empty program: Parser.parse returns None, which Execer
     compiles as an empty module, so None is read as a module with an empty body;
@@ -158,6 +160,24 @@ def _leaf(x):
     return type(x).__name__
 
 
+def _fparts(values):
+    """Literal parts of an f-string as the compiler sees them: adjacent string constants are
+    concatenated and empty ones contribute nothing (CPython appends Constant('') to a nested format
+    spec, xonsh keeps '' pieces of implicit concatenations; the built string is the same)."""
+    if not isinstance(values, list):
+        return values
+    out = []
+    for v in values:
+        if isinstance(v, ast.Constant) and isinstance(v.value, str):
+            if v.value == "":
+                continue
+            if out and isinstance(out[-1], ast.Constant) and isinstance(out[-1].value, str):
+                out[-1] = ast.Constant(value=out[-1].value + v.value)
+                continue
+        out.append(v)
+    return out
+
+
 def first_diff(g, e, where="root"):
     """First structural difference between xonsh's tree g and CPython's tree e (None if equal):
     (signature detail, human detail).  The signature names only the field where the trees part."""
@@ -172,6 +192,8 @@ def first_diff(g, e, where="root"):
             if f in _IGNORED:
                 continue
             gv, ev = getattr(g, f, None), getattr(e, f, None)
+            if cname == "JoinedStr" and f == "values":
+                gv, ev = _fparts(gv), _fparts(ev)
             if ev is None or ev == []:
                 if gv is None or gv == []:
                     continue  # absent / None / empty are the same to the compiler
@@ -383,6 +405,8 @@ def _explore(item):
         return any_ok
 
     consider(text, "canonical", True)
+    tree0 = cpython_parse(text, "exec")
+    kinds = sorted({type(n).__name__ for n in ast.walk(tree0)}) if tree0 is not None else []
     first = []
     for name, new in rw.rewrites(text, light=(klass == "light")):
         if consider(new, name, klass != "light") and klass == "pairs" and name in PAIR_RULES:
@@ -392,7 +416,16 @@ def _explore(item):
         for name, new in rw.rewrites(t1, PAIR_RULES):
             consider(new, "pair:" + name, False)
     stats["wall"] = time.perf_counter() - t0
+    stats["kinds"] = kinds
     return stats, b"".join(digests), fails
+
+
+def _all_kinds():
+    out = set()
+    for sort in ("stmt", "expr", "pattern", "type_param", "excepthandler", "boolop", "operator", "unaryop", "cmpop"):
+        out.update(gen.SUMS.get(sort) or gen.ENUMS[sort])
+    out.update(("arguments", "arg", "keyword", "alias", "withitem", "match_case", "comprehension", "Load", "Store", "Del"))
+    return out
 
 
 def _plan(ctx):
@@ -458,7 +491,9 @@ def run(ctx):
     blob = []
     fails = {}
     slow = []
+    kinds = set()
     for (text, k), (st, dg, fl) in zip(work, res):
+        kinds.update(st["kinds"])
         for kk in tot:
             tot[kk] += st[kk]
         slow.append((st["wall"], text))
@@ -515,6 +550,8 @@ def run(ctx):
         candidate_texts=tot["candidates"],
         failing_inputs=tot["fail_inputs"],
         failure_classes=len(fails),
+        ast_node_kinds_in_accepted_programs=len(kinds),
+        ast_node_kinds_missing=sorted(_all_kinds() - kinds),
         bounds=bounds,
     )
     ctx.assumptions += [
